@@ -35,4 +35,4 @@ LEVEL_TEXT = ("pp_hash_table_calc_hash under contract for every pointer value: b
               "with at most L entries (symbolic keys incl. NULL / all-ones / same-bucket keys, built through the real bucket function) and list operations from any list of length <= L: "
               "insert/overwrite, remove-only-that-key, lookup with the (ppointer)-1 marker, keys/values/lookup_by_value as exact listings; append/prepend/remove-first-occurrence/reverse/last/"
               "length/foreach/free as sequence operations, allocation failure included. An inductive list predicate is not expressible in CBMC contracts, hence the bound; counted as bounded model checking.")
-LEVEL_NOTE = "Bounded by the number of entries (see bound). Trusted: allocator model. lookup_by_value with a user comparator is checked for the NULL (identity) comparator only."
+LEVEL_NOTE = "Bounded by the number of entries (see bound). Trusted: allocator model. lookup_by_value with a user comparator is checked for the NULL (identity) comparator only. Units *_real_list run the listing functions with the real plist.c on a table object of 3 buckets (the scan is generic in table->size); unit sequence runs a five-call history (lookup, update, lookup, opposite update, lookup) on one table object, so that state left behind by one operation for the next is seen."
